@@ -135,3 +135,20 @@ pub fn replay(v: &mc_core::Value) -> (bool, String) {
 }
 
 pub const RULE: &str = "BTOR2: line templates with one varying number position (node id, sort id, bit width, array sorts, operands, slice/extension indices, assignment and output operands, justice conditions) x boundary numbers x leading zero x trailing comment; accepted => the multiset of numbers in the returned line equals the numbers written in the text (big decimals). Non-trivial = accepted documents";
+
+/// Documents for the C05 sweep: every template (plus count positions, which C06 cannot judge
+/// because a surplus operand reads as a symbol) x boundary numbers.
+pub fn c05_docs() -> Vec<mc_core::generic::Doc> {
+    let mut ts: Vec<&str> = templates().into_iter().map(|t| t.0).collect();
+    ts.extend(["3 justice {} 4 7", "3 justice {}", "3 justice {} 4", "{} justice {} {} {}", "3 sort bitvec {} x", "3 slice 5 6 {} {}"]);
+    let mut out = Vec::new();
+    for t in ts {
+        for n in boundary() {
+            for tail in ["\n", ""] {
+                out.push(mc_core::generic::Doc::new("template", format!("{}{tail}", t.replace("{}", &n)).into_bytes()));
+                out.push(mc_core::generic::Doc::new("template", format!("1 sort bitvec 1\n{}{tail}", t.replace("{}", &n)).into_bytes()));
+            }
+        }
+    }
+    mc_core::generic::dedup_docs(out)
+}
